@@ -72,7 +72,7 @@ def realise(kind, n, edges, order):
         decls = []
         for i in order:
             if len(succ[i]) == 0:
-                decls.append("TYPE N%d : (n%d_a, n%d_b); END_TYPE" % (i, i, i))
+                decls.append(enum_leaf(i))
             elif len(succ[i]) == 1:
                 decls.append("TYPE N%d : N%d; END_TYPE" % (i, succ[i][0]))
             else:
@@ -86,11 +86,21 @@ def realise(kind, n, edges, order):
                 seen.add(j)
                 j = succ[j][0]
             if len(succ[j]) == 0:
-                vars_.append(" v%d : N%d := n%d_a;" % (i, i, j))
+                vars_.append(" v%d : N%d := %sn%d_a;" % (i, i, "N%d#" % i if i % 3 == 1 else "", j))
                 vars_.append(" w%d : N%d := n%d_b;" % (i, i, j))
         if vars_:
             decls.append("PROGRAM user VAR%s END_VAR END_PROGRAM" % "".join(vars_))
     return "\n".join(decls)
+
+
+def enum_leaf(i):
+    """An enumeration; by node number its values and its default are written plainly or with the name of the
+    enumeration itself in front (N3#n3_a): a value named with its own type refers to nothing else"""
+    q = "N%d#" % i
+    form = i % 4
+    vals = "%sn%d_a, %sn%d_b" % (q if form == 2 else "", i, q if form in (2, 3) else "", i)
+    dflt = " := %sn%d_b" % (q if form in (1, 2) else "", i) if form else ""
+    return "TYPE N%d : (%s)%s; END_TYPE" % (i, vals, dflt)
 
 
 NODE_KINDS = ["fb", "struct", "alias", "arrayof"]
@@ -167,7 +177,7 @@ def realise_hetero(n, edges, order, vec):
         elif k == "arrayof":
             decls.append("TYPE N%d : ARRAY[0..3] OF %s; END_TYPE" % (i, names[0]))
         elif k == "enum":
-            decls.append("TYPE N%d : (n%d_a, n%d_b); END_TYPE" % (i, i, i))
+            decls.append(enum_leaf(i))
         elif k == "subrange":
             decls.append("TYPE N%d : INT(0..%d); END_TYPE" % (i, i + 1))
         elif k == "array":
